@@ -576,7 +576,10 @@ def start_specs(rng):
     c, d = core.NORMALISATION_PAIRS[2]
     s4 = {"obs": [a, "mid", b], "samp": [c, d, "s3"], "rows": [[1.0, 0.0, 3.0], [0.0, 6.0, 4.0], [2.0, 5.0, 0.0]],
           "omd": [{"grp": "a"}, {"grp": "b"}, {"grp": "a"}], "smd": None, "type": None}
-    return [s1, s2, s3, s4]
+    # partly annotated axes: some IDs carry metadata, others an empty entry
+    s5 = {"obs": ["a1", "a2", "b1"], "samp": ["x", "y", "zb"], "rows": [[1.0, 2.0, 0.0], [0.0, 3.0, 4.0], [5.0, 0.0, 6.0]],
+          "omd": [{"grp": "a"}, {}, {"grp": "b"}], "smd": [{}, {"grp": "v"}, {"grp": "w"}], "type": None}
+    return [s1, s2, s3, s4, s5]
 
 
 def run(ctx):
